@@ -115,6 +115,48 @@ def run(chk) -> None:
     chk.rule("R30h", "the slicer drops the head of the source-only stack whenever it covers exactly the range of the patch: the equality pop is conditioned on the stack being non-empty and that equality only")
     _r30g(chk, repo)
     _r30h(chk, repo)
+    chk.rule("R30i", "two patches with different ranges conflict exactly when the ranges overlap, whichever comes first: the general return of _patches_conflict is the symmetric interval test max(starts) < min(stops) (or a.start < b.stop and b.start < a.stop)")
+    _r30i(chk, repo)
+
+
+def _r30i(chk, repo) -> None:
+    f = repo.fn(PATCH, "_patches_conflict")
+    cfg = cfg_of(f)
+    rets = [r for r in walk_local(f) if isinstance(r, ast.Return) and r.value is not None]
+    last = max(rets, key=lambda r: r.lineno)
+
+    def leaf(e):
+        """('first'|'second', 'start'|'stop') of a bound, through int() and locals."""
+        if isinstance(e, ast.Name):
+            os_ = origins(cfg, e, last)
+            if len(os_) == 1 and os_[0].kind == "expr":
+                return leaf(os_[0].expr)
+            return None
+        if isinstance(e, ast.Call) and call_name(e) == "int" and len(e.args) == 1:
+            return leaf(e.args[0])
+        if isinstance(e, ast.Attribute) and e.attr in ("start", "stop") and isinstance(e.value, ast.Attribute) and e.value.attr == "source_slice" and isinstance(e.value.value, ast.Name):
+            return (e.value.value.id, e.attr)
+        return None
+
+    v = last.value
+    ok = False
+    if isinstance(v, ast.Compare) and len(v.ops) == 1 and isinstance(v.ops[0], ast.Lt):
+        l, r = v.left, v.comparators[0]
+        if isinstance(l, ast.Call) and call_name(l) == "max" and isinstance(r, ast.Call) and call_name(r) == "min" and len(l.args) == 2 and len(r.args) == 2:
+            ls, rs = {leaf(a) for a in l.args}, {leaf(a) for a in r.args}
+            who = {x[0] for x in ls | rs if x}
+            ok = None not in ls | rs and len(who) == 2 and {x[1] for x in ls} == {"start"} and {x[1] for x in rs} == {"stop"} and {x[0] for x in ls} == who and {x[0] for x in rs} == who
+    if isinstance(v, ast.BoolOp) and isinstance(v.op, ast.And) and len(v.values) == 2 and all(isinstance(c, ast.Compare) and len(c.ops) == 1 and isinstance(c.ops[0], ast.Lt) for c in v.values):
+        pairs = [(leaf(c.left), leaf(c.comparators[0])) for c in v.values]
+        if all(a and b for a, b in pairs):
+            who = {a[0] for a, b in pairs} | {b[0] for a, b in pairs}
+            ok = len(who) == 2 and all(a[1] == "start" and b[1] == "stop" and a[0] != b[0] for a, b in pairs) and {a[0] for a, b in pairs} == who
+    chk.require(
+        ok, "R30i", last,
+        f"the general case of _patches_conflict returns `{short(v, 60)}`, not the symmetric overlap test: for some order or shape of two overlapping ranges (same start, different lengths) it "
+        "answers 'no conflict' and both edits are merged",
+        detail="_patches_conflict: symmetric interval overlap in the general case",
+    )
 
 
 def _r30g(chk, repo) -> None:
@@ -796,6 +838,18 @@ def _r30d(chk, repo) -> None:
 from ..selftest import Variant  # noqa: E402
 
 VARIANTS = [
+    Variant(
+        "overlap-test-assumes-the-second-starts-later", PATCH,
+        "    return max(first_start, second_start) < min(first_stop, second_stop)\n",
+        "    return first_start < second_start < first_stop\n",
+        "R30i", "_patches_conflict", "seeded C30-8: [3,5) and [3,8) no longer conflict",
+    ),
+    Variant(
+        "quiet-overlap-test-as-two-comparisons", PATCH,
+        "    return max(first_start, second_start) < min(first_stop, second_stop)\n",
+        "    return first_start < second_stop and second_start < first_stop\n",
+        "QUIET", None, "R30i: the same symmetric test spelled as a conjunction",
+    ),
     Variant(
         "dedupe-key-includes-the-category", PATCH,
         "            self.fixed_raw,\n        )\n",
